@@ -80,6 +80,9 @@ func c13Exec(waf coraza.WAF, p *c13Probe) (out c13Out) {
 		}()
 		tx.ProcessConnection("10.0.0.1", 1234, "10.0.0.2", 80)
 		tx.ProcessURI(p.Path, "GET", "HTTP/1.1")
+		for _, kv := range p.Headers {
+			tx.AddRequestHeader(kv.K, kv.V)
+		}
 		for _, kv := range p.Args {
 			tx.AddGetRequestArgument(kv.K, kv.V)
 		}
